@@ -16,11 +16,30 @@ import (
 )
 
 // c29Seq1 runs one drop-heavy script and re-opens afterwards.
-func c29Seq1(c *core.Ctx, work string, i int) {
+func c29Seq1(c *core.Ctx, work string, i int) { c29SeqSig(c, work, i, "C29") }
+
+// c29SeqSig is c29Seq1 reporting under the given property (C14 runs the many-table layouts as well).
+func c29SeqSig(c *core.Ctx, work string, i int, prop string) {
 	seed := c.SubSeed(fmt.Sprintf("c29-seq-%d", i))
 	r := rand.New(rand.NewSource(seed))
-	keys := gen.KeySet(r, 12+r.Intn(20), 6)
+	nk := 12 + r.Intn(20)
+	if i%3 == 1 {
+		nk = 120 + r.Intn(200) // several tables per level: drops hit non-adjacent tables
+	}
+	keys := gen.KeySet(r, nk, 6)
 	script := genScript(r, keys, c.Pick(160, 300), []int{0, 24, 64, 65, 300}, true)
+	if i%3 == 1 {
+		// bulk load first so that the deeper levels hold many small tables
+		var bulk []scriptOp
+		for b := 0; b < 6; b++ {
+			var specs []drv.WriteSpec
+			for j := 0; j < 60; j++ {
+				specs = append(specs, drv.WriteSpec{Key: keys[r.Intn(len(keys))], Len: []int{24, 40, 60}[r.Intn(3)]})
+			}
+			bulk = append(bulk, scriptOp{Kind: "batch", Specs: specs}, scriptOp{Kind: "flush"}, scriptOp{Kind: "force", Level: 0, ID: 1}, scriptOp{Kind: "force", Level: 1, ID: 1})
+		}
+		script = append(bulk, script...)
+	}
 	// more drops: after every third check add a multi-prefix drop
 	var s2 []scriptOp
 	nMulti := 0
@@ -53,25 +72,25 @@ func c29Seq1(c *core.Ctx, work string, i int) {
 		c.Inconclusive("open: " + err.Error())
 		return
 	}
-	w := &drv.World{C: c, Sig: "C29|sequential", DB: db, Opt: opt, M: model.New(), R: r, Keys: keys}
+	w := &drv.World{C: c, Sig: prop + "|sequential", DB: db, Opt: opt, M: model.New(), R: r, Keys: keys}
 	logs := execScript(c, w, s2)
 	c.Eval(1)
 	c.Count("drop.sequential_checks", int64(len(logs)))
 	if err := w.DB.Close(); err != nil {
-		c.Violation("C29|sequential|close", err.Error(), nil)
+		c.Violation(prop+"|sequential|close", err.Error(), nil)
 	}
 	db, err = badger.Open(opt)
 	if err != nil {
-		c.Violation("C29|sequential|reopen", err.Error(), map[string]any{"steps": w.Steps})
+		c.Violation(prop+"|sequential|reopen", err.Error(), map[string]any{"steps": w.Steps})
 		return
 	}
 	w.DB = db
 	before := c.Violations()
-	hist.CheckState(c, "C29|sequential|after-reopen", db, w.M, hist.StateOpts{})
+	hist.CheckState(c, prop+"|sequential|after-reopen", db, w.M, hist.StateOpts{})
 	if c.Violations() > before {
 		c.Set("twin_failing_steps", w.Witness())
 	}
-	checkStructure(c, "C29|sequential|after-reopen", db, opt, true, w.Witness)
+	checkStructure(c, prop+"|sequential|after-reopen", db, opt, true, w.Witness)
 	_ = db.Close()
 	nd := 0
 	for _, op := range s2 {
